@@ -150,6 +150,19 @@ func (r *Reader) extractImage(name string, stream *core.Stream) (*PageImage, err
 
 // parseColorSpace parses a color space object and returns its name.
 func (r *Reader) parseColorSpace(obj core.Object) string {
+	return r.parseColorSpaceDepth(obj, 0)
+}
+
+// maxColorSpaceDepth bounds the chain of base colour spaces that is followed.
+// A valid Indexed space has a base that is not itself Indexed, so anything
+// deeper comes from a damaged file (for instance a space that is its own base).
+const maxColorSpaceDepth = 8
+
+func (r *Reader) parseColorSpaceDepth(obj core.Object, depth int) string {
+	if depth > maxColorSpaceDepth {
+		return "DeviceGray"
+	}
+
 	// Resolve if reference
 	resolved, err := r.Resolve(obj)
 	if err != nil {
@@ -166,7 +179,7 @@ func (r *Reader) parseColorSpace(obj core.Object) string {
 				csName := string(name)
 				// For Indexed, get the base color space
 				if csName == "Indexed" && len(v) > 1 {
-					return r.parseColorSpace(v[1])
+					return r.parseColorSpaceDepth(v[1], depth+1)
 				}
 				// For ICCBased, try to determine the number of components
 				if csName == "ICCBased" && len(v) > 1 {
